@@ -293,8 +293,14 @@ func symConv(tdst, tsrc types.Type, x symv) value {
 	ws, ssrc, oks := intInfo(tsrc)
 	if !okd || !oks {
 		if b, ok := tdst.Underlying().(*types.Basic); ok && b.Info()&types.IsString != 0 && oks {
-			// string(rune) with symbolic rune
-			panic(pathUnsupported{"string(symbolic integer)"})
+			// string(rune) with a symbolic rune: one byte when it is ASCII
+			if !E.Decide(mk(0, "bvult", x, symv{x.w, bvLit(0x80, x.w)})) {
+				panic(pathUnsupported{"string(symbolic non-ASCII rune)"})
+			}
+			if x.w == 8 {
+				return symstr{[]value{x}}
+			}
+			return symstr{[]value{E.name(symv{8, fmt.Sprintf("((_ extract 7 0) %s)", x.t)})}}
 		}
 		panic(pathUnsupported{"conversion " + tsrc.String() + " -> " + tdst.String() + " of a symbolic value"})
 	}
